@@ -3,70 +3,127 @@
    Model: coq/model/PE.v (peval, PartialResponse views, reauthorize), transcribed from
    evaluator.rs / authorizer/partial_response.rs and run against the implementation by ./check C13.
 
-   What is proved here (for ALL policy lists, status functions and concrete outcome functions):
-   the PartialResponse views are sound with respect to ANY concrete per-policy outcome function
-   `evalp` that the partial statuses are sound for (`status_sound`): a definite partial decision
-   is the concrete decision, must ⊆ determining ⊆ may, definitely satisfied / errored / trivially
-   false policies are so concretely.  `evalp` is instantiated with the concrete evaluator under
-   a substitution sigma (eval_policy (sigma q) (sigma es)) in the corollaries.
-
-   _partial: the per-policy hypothesis `status_sound (peval-status p) (eval_policy ... p)` —
-   i.e. c13_peval_sound lifted to policies — is NOT proved in Coq for the whole expression
-   language; it is discharged only by the correspondence/oracle run (./check C13 compares the
-   model's and the implementation's residuals semantically under >= 10 substitutions per case and
-   checks exactly this hypothesis on the implementation).  c13_reauthorize is likewise covered by
-   the correspondence and the implementation-level oracle only. *)
+   Reading guide (all definitions are Printed below the theorems that use them):
+   * sg is the substitution sigma; (q, es) is a sg-COMPLETION of the partial request / store
+     (pq, pes): stated relationally — every request variable's partial value is sound
+     (`forall sl v, sound_pres sg sl q es (peval_var pq v) (Var v)`) and every stored entity has
+     the same tags / ancestors and attribute-wise completed attributes (`store_complete`).
+   * wt_expr sg e: every unknown of e is mapped by sg to a value of its declared type
+     (the WELL-TYPED substitutions of the property text).
+   * agree a b: equal values, or BOTH errors — the error class may differ.
+   * Outside the model, visible in the statements: POut / SOut (an extension VALUE had to be
+     converted back into an expression) and partial entity stores (Entities::partial) — covered by
+     the implementation-level oracle of ./check C13 only. *)
 From Coq Require Import String.
-From Cedar Require Import Authz PE PEProofs.
+From Cedar Require Import Authz PE PEProofs PESound PEReauth.
 Open Scope string_scope.
 
+(* ---- c13_peval_sound: for EVERY expression of the language (structural induction, one lemma
+   per peval arm in proofs/PESound.v) ----
+     peval e = PV v   ->  eval (sg e) = Ok v
+     peval e = PR r   ->  agree (eval (sg r)) (eval (sg e))  /\  r is again well-typed for sg
+     peval e = PErr _ ->  eval (sg e) is an error
+   also for an evaluator that already carries a mapper mu ⊆ sg (as reauthorize does). *)
+Theorem c13_peval_sound :
+  forall (sg mu : mapper) (sl : slotenv) (pq : prequest) (pes : pentities) (q : request) (es : entities),
+    (forall (n : str) (v : value), mu n = Some v -> sg n = Some v) ->
+    (forall v : var, sound_pres sg sl q es (peval_var pq v) (Var v)) ->
+    store_complete sg sl pes q es ->
+    forall e : expr,
+      wt_expr sg e = true ->
+      sound_pres sg sl q es (peval mu sl pq pes e) e.
+Proof. exact peval_sound. Qed.
+Print Assumptions c13_peval_sound.
+Print sound_pres.
+Print sound_res.
+Print agree.
+Print store_complete.
+Print attr_complete.
+
+(* the status recorded for a policy is sound for the concrete outcome of (sg policy) *)
+Theorem c13_policy_status_sound :
+  forall (sg mu : mapper) pq pes q es p,
+    (forall n v, mu n = Some v -> sg n = Some v) ->
+    (forall sl v, sound_pres sg sl q es (peval_var pq v) (Var v)) ->
+    (forall sl, store_complete sg sl pes q es) ->
+    wt_expr sg (pcondition p) = true ->
+    peval_policy mu (penv p) pq pes p <> SOut ->
+    status_sound (peval_policy mu (penv p) pq pes p) (eval_policy_subst sg q es p).
+Proof. exact policy_status_sound. Qed.
+Print Assumptions c13_policy_status_sound.
+Print status_sound.
+Print eval_policy_subst.
+
+(* ---- the PartialResponse views, for the partial response of ANY policy list ---- *)
+Print completion.
+
 (* a definite partial decision is the decision for every completion *)
-Theorem c13_decision_partial :
-  forall (pstat : policy -> pstatus) (evalp : policy -> res bool),
-    (forall p, status_sound (pstat p) (evalp p)) ->
-    forall ps d, pdecision (pitems_with pstat ps) = Some d -> rdecision (authorize_with evalp ps) = d.
-Proof. exact decision_sound. Qed.
-Print Assumptions c13_decision_partial.
+Theorem c13_decision :
+  forall sg pq pes q es ps d,
+    completion sg pq pes q es ps ->
+    pdecision (pitems (is_authorized_partial ps pq pes)) = Some d ->
+    rdecision (authorize_with (eval_policy_subst sg q es) ps) = d.
+Proof. exact decision_final. Qed.
+Print Assumptions c13_decision.
 
-(* must_be_determining ⊆ actual determining policies *)
-Theorem c13_determining_must_partial :
-  forall (pstat : policy -> pstatus) (evalp : policy -> res bool),
-    (forall p, status_sound (pstat p) (evalp p)) ->
-    forall ps i, In i (must_be_determining (pitems_with pstat ps)) -> In i (rreasons (authorize_with evalp ps)).
-Proof. exact must_sound. Qed.
-Print Assumptions c13_determining_must_partial.
+(* must_be_determining ⊆ actual determining policies ⊆ may_be_determining *)
+Theorem c13_determining :
+  forall sg pq pes q es ps i,
+    completion sg pq pes q es ps ->
+    (In i (must_be_determining (pitems (is_authorized_partial ps pq pes))) ->
+     In i (rreasons (authorize_with (eval_policy_subst sg q es) ps))) /\
+    (In i (rreasons (authorize_with (eval_policy_subst sg q es) ps)) ->
+     In i (may_be_determining (pitems (is_authorized_partial ps pq pes)))).
+Proof. exact determining_final. Qed.
+Print Assumptions c13_determining.
 
-(* actual determining policies ⊆ may_be_determining *)
-Theorem c13_determining_may_partial :
-  forall (pstat : policy -> pstatus) (evalp : policy -> res bool),
-    (forall p, status_sound (pstat p) (evalp p)) ->
-    forall ps i, In i (rreasons (authorize_with evalp ps)) -> In i (may_be_determining (pitems_with pstat ps)).
-Proof. exact may_sound. Qed.
-Print Assumptions c13_determining_may_partial.
+(* definitely satisfied / errored / trivially false policies behave so under the substitution *)
+Theorem c13_definitely :
+  forall sg pq pes q es ps i,
+    completion sg pq pes q es ps ->
+    (In i (definitely_satisfied (pitems (is_authorized_partial ps pq pes))) ->
+     exists p, In p ps /\ pid p = i /\ eval_policy_subst sg q es p = Ok true) /\
+    (In i (definitely_errored (pitems (is_authorized_partial ps pq pes))) ->
+     exists p e, In p ps /\ pid p = i /\ eval_policy_subst sg q es p = Err e) /\
+    (In i (trivially_false (pitems (is_authorized_partial ps pq pes))) ->
+     exists p, In p ps /\ pid p = i /\ eval_policy_subst sg q es p = Ok false).
+Proof. exact definitely_final. Qed.
+Print Assumptions c13_definitely.
 
-Theorem c13_definitely_satisfied_partial :
-  forall (pstat : policy -> pstatus) (evalp : policy -> res bool),
-    (forall p, status_sound (pstat p) (evalp p)) ->
-    forall ps i, In i (definitely_satisfied (pitems_with pstat ps)) ->
-                 exists p, In p ps /\ pid p = i /\ evalp p = Ok true.
-Proof. exact satisfied_sound. Qed.
-Print Assumptions c13_definitely_satisfied_partial.
 
-Theorem c13_definitely_errored_partial :
-  forall (pstat : policy -> pstatus) (evalp : policy -> res bool),
-    (forall p, status_sound (pstat p) (evalp p)) ->
-    forall ps i, In i (definitely_errored (pitems_with pstat ps)) ->
-                 exists p e, In p ps /\ pid p = i /\ evalp p = Err e.
-Proof. exact errored_sound. Qed.
-Print Assumptions c13_definitely_errored_partial.
+(* ---- reauthorize, policy by policy ----
+   reauth_status sg q es st  is the status PartialResponse::reauthorize records for a policy whose
+   first-phase status was st: the policy  true && (true && (true && residual))  (resp. true / false)
+   evaluated by peval with the mapper sg on the completed request and store.  It never is a residual,
+   and the policy is satisfied under reauthorize iff it is satisfied from scratch — the decision and
+   the determining policies are functions of exactly these satisfied sets.
+   _partial: (a) stated per policy — the lifting to the policy LIST (items of reauthorize =
+   map over the first-phase items; decision / reason of pconcretize) is not proved in Coq, it is
+   compared on every run by ./check C13; (b) the completed request is taken as given:
+   concretize_request sg pq = embed_request q is not proved (Context::substitute re-evaluation);
+   (c) static policies (no slots). *)
+Theorem c13_reauthorize_partial :
+  forall sg q es pq pes p,
+    (forall sl v, sound_pres sg sl q es (peval_var pq v) (Var v)) ->
+    (forall sl, store_complete sg sl pes q es) ->
+    penv p = [] ->
+    wt_expr sg (pcondition p) = true ->
+    peval_policy no_mapping [] pq pes p <> SOut ->
+    match reauth_status sg q es (peval_policy no_mapping [] pq pes p) with
+    | SSat => eval_policy_subst sg q es p = Ok true
+    | SFalse | SErr _ => eval_policy_subst sg q es p <> Ok true
+    | SRes _ | SOut => False
+    end.
+Proof. exact reauth_policy_sound. Qed.
+Print Assumptions c13_reauthorize_partial.
+Print reauth_status.
 
-Theorem c13_trivially_false_partial :
-  forall (pstat : policy -> pstatus) (evalp : policy -> res bool),
-    (forall p, status_sound (pstat p) (evalp p)) ->
-    forall ps i, In i (trivially_false (pitems_with pstat ps)) ->
-                 exists p, In p ps /\ pid p = i /\ evalp p = Ok false.
-Proof. exact false_sound. Qed.
-Print Assumptions c13_trivially_false_partial.
+(* in concrete mode (concrete request and store, every unknown mapped) peval leaves no residual *)
+Theorem c13_reauthorize_no_residual :
+  forall mu sl q es e, wt_expr mu e = true ->
+    is_concrete (peval mu sl (embed_request q) (embed_entities es) e).
+Proof. exact peval_concrete. Qed.
+Print Assumptions c13_reauthorize_no_residual.
 
 (* ---- non-vacuity: a concrete partial request with an unknown principal ---- *)
 Definition ex_user : etype := [s2str "User"].
@@ -103,7 +160,7 @@ Proof. vm_compute. repeat split. Qed.
    and reauthorize agrees with concrete authorization from scratch *)
 Example c13_ex_status_sound :
   forall flag, Forall (fun p => status_sound (peval_policy no_mapping (penv p) ex_pq [] p)
-                                             (eval_policy (ex_q flag) [] p)) ex_ps.
+                                             (eval_policy_subst (ex_sigma flag) (ex_q flag) [] p)) ex_ps.
 Proof. intros [|]; repeat constructor; vm_compute; eauto. Qed.
 
 Example c13_ex_reauthorize :
@@ -118,3 +175,13 @@ Example c13_ex_definite :
   pdecision (pitems (is_authorized_partial [nth 0 ex_ps (ex_tpl "x" Permit T); nth 2 ex_ps (ex_tpl "x" Permit T)] ex_pq []))
   = Some Allow.
 Proof. vm_compute. reflexivity. Qed.
+
+(* the hypothesis `completion` of the theorems holds for the example under both completions *)
+Example c13_ex_completion :
+  forall flag, completion (ex_sigma flag) ex_pq [] (ex_q flag) [] ex_ps.
+Proof.
+  intros flag. split; [|split].
+  - intros sl v. destruct flag, v; cbv; auto.
+  - intros sl u. reflexivity.
+  - intros p [E|[E|[E|[E|[]]]]]; subst p; split; try (vm_compute; congruence); destruct flag; reflexivity.
+Qed.
